@@ -3,6 +3,7 @@ open Modelgen
 let table : (Stdlib.String.t * (z list -> z list)) list = [   (* Stdlib.: the extracted code may define its own type `string` *)
   ("coll", run_coll);
   ("kernel", run_kernel);
+  ("premises", run_premises);
   ("frag", run_frag);
   ("defaults", run_defaults);
   ("metaviews", run_metaviews);
